@@ -334,15 +334,6 @@ func newModel(s *spec) *model {
 
 func (m *model) godOnly() bool { return m.online == 0 }
 
-// voterOf maps a member of the drawn committee to the address that casts its
-// vote: the pool address for a delegator, the identity itself otherwise.
-func (m *model) voterOf(a common.Address) common.Address {
-	if i, ok := m.byAddr[a]; ok && m.s.Ids[i].Pool >= 0 {
-		return m.s.addr(m.s.Ids[i].Pool)
-	}
-	return a
-}
-
 // poolEligible: a pool is eligible while at least one of its members (the pool
 // address itself if validated, or any delegator) is validated and not
 // discriminated.
